@@ -1,11 +1,11 @@
 (* C18 — resource store: version CAS, stable UIDs, ordered watches.
-   Theorems only; each is closed by a lemma of Resource/{CasProofs,WatchProofs,Examples}.v.
+   Theorems only; each is closed by a lemma of Resource/{CasProofs,RaftProofs,WatchProofs,RaftWatch,Examples}.v.
    Model: Resource/Model.v (inmem.Store/Backend + the part of agent/consul/stream the watches ride on).
    [run st ops] executes a schedule; [step st o] returns (state, output);
    [lk k st] is the stored row of id k; [glog st ops] the commits of a run (read off the outputs of the
    successful writes and deletes), [deliv n st ops] what watch n returned from Next. *)
 From Verif Require Import Base.Prelude Resource.Model Resource.TableProofs Resource.CasProofs
-     Resource.WatchDefs Resource.WatchProofs Resource.Examples.
+     Resource.RaftProofs Resource.WatchDefs Resource.WatchProofs Resource.Examples Resource.RaftWatch.
 Local Open Scope N_scope.
 
 (* ---- version CAS: of any writes presenting the same version for the same id at most one succeeds.
@@ -65,6 +65,82 @@ Theorem C18_stale_uid_powerless : forall st k r_new uid,
   (forall v, step st (ODelete k uid v) = (st, OutOk)).
 Proof. exact stale_uid_powerless. Qed.
 
+(* ---- a version consumed by a successful write cannot be used by a later delete either (both paths). *)
+Theorem C18_write_then_delete : forall st a r b uid x,
+  vb st -> forallb backend_op (a ++ OWrite r :: b) = true -> r_version r <> 0 ->
+  let s1 := run st a in
+  let s2 := run (fst (step s1 (OWrite r))) b in
+  snd (step s1 (OWrite r)) = OutRes x ->
+  s_res (fst (step s2 (ODelete (r_id r) uid (r_version r)))) = s_res s2.
+Proof. exact cas_write_then_delete. Qed.
+
+(* ---- the same three clauses for the Raft-backed path: raft.Backend.Apply -> Store.WriteCAS(res, presented)
+   with res.Version = the log index ([OWriteS], caller-chosen version) and snapshot restores in the schedule.
+   The only assumption is the discipline Raft itself provides, stated on the schedule alone ([raft_ok B ops]):
+   no Backend-counter writes, every written version exceeds every version in use so far (B, raised by each
+   write and by each restore to the largest version it installs), restored rows carry a version >= 1.
+   [vbb B st]: the rows of st have versions in 1..B (true of the empty store for any B, C18_vbb_init, and
+   maintained across restores by raft_ok). *)
+Theorem C18_raft_cas_exclusive : forall B st a r1 v b r2,
+  vbb B st -> raft_ok B (a ++ OWriteS r1 v :: b ++ [OWriteS r2 v]) -> forallb no_restore b = true ->
+  r_id r1 = r_id r2 ->
+  let s1 := run st a in
+  let s1' := fst (step s1 (OWriteS r1 v)) in
+  let s2 := run s1' b in
+  snd (step s1 (OWriteS r1 v)) = OutOk ->
+  snd (step s2 (OWriteS r2 v)) = OutOk ->
+  v = 0 /\ exists b1 d b2, b = b1 ++ d :: b2 /\ effective_delete (run s1' b1) d (r_id r1).
+Proof. exact raft_cas_exclusive. Qed.
+(* [a] may contain restores; between the two writes a restore may legitimately re-install version v (a
+   rollback), which is why [b] is restore-free: exclusion is per epoch, the bound carries across epochs. *)
+
+Theorem C18_raft_new_lifetime : forall B st a b c r_old,
+  vbb B st -> raft_ok B (a ++ b ++ c) -> forallb no_restore (b ++ c) = true ->
+  let k := r_id r_old in
+  let s_i := run st a in
+  let s_j := run s_i b in
+  let s_m := run s_j c in
+  lk k s_i = Some r_old -> lk k s_j = None ->
+  (forall r, r_id r = k -> raft_bound B (a ++ b ++ c) < r_version r ->
+     (snd (step s_m (OWriteS r (r_version r_old))) = OutErr ECAS \/ snd (step s_m (OWriteS r (r_version r_old))) = OutErr EWrongUid) /\
+     fst (step s_m (OWriteS r (r_version r_old))) = s_m) /\
+  (forall uid, s_res (fst (step s_m (ODelete k uid (r_version r_old)))) = s_res s_m).
+Proof. exact raft_new_lifetime. Qed.
+
+Theorem C18_raft_write_then_delete : forall B st a r v b uid,
+  vbb B st -> raft_ok B (a ++ OWriteS r v :: b) -> forallb no_restore b = true -> v <> 0 ->
+  let s1 := run st a in
+  let s2 := run (fst (step s1 (OWriteS r v))) b in
+  snd (step s1 (OWriteS r v)) = OutOk ->
+  s_res (fst (step s2 (ODelete (r_id r) uid v))) = s_res s2.
+Proof. exact raft_write_then_delete. Qed.
+
+(* the version bound survives every schedule that keeps the discipline, restores included *)
+Theorem C18_raft_bound_kept : forall a B st c, vbb B st -> raft_ok B (a ++ c) ->
+  B <= raft_bound B a /\ vbb (raft_bound B a) (run st a) /\ raft_ok (raft_bound B a) c.
+Proof. exact raft_run. Qed.
+
+(* for the inmem.Backend path: a restore of rows whose versions were handed out keeps [vb]; keys stay unique *)
+Theorem C18_vb_after_restore : forall st l,
+  (forall r, In r l -> 1 <= r_version r <= s_vsn st) -> vb (fst (step st (ORestore l))).
+Proof. exact vb_restore. Qed.
+Theorem C18_keys_unique_after_restore : forall st l, NoDup (keys (s_res (fst (step st (ORestore l))))).
+Proof. exact restore_keys_nodup. Qed.
+
+(* ---- reads: Store.Read in terms of the stored row; a reader naming the uid of another (deleted) lifetime is
+   told not-found whatever GroupVersion it speaks. *)
+Theorem C18_read_spec : forall st k gv uid,
+  snd (step st (ORead k gv uid)) =
+  match lk k st with
+  | None => OutErr ENotFound
+  | Some r => if negb (str_eqb uid []) && negb (str_eqb (r_uid r) uid) then OutErr ENotFound
+              else if negb (str_eqb gv (r_gv r)) then OutGVM r else OutRes r
+  end.
+Proof. exact read_spec. Qed.
+Theorem C18_read_stale_uid_notfound : forall st k gv uid r,
+  lk k st = Some r -> uid <> [] -> uid <> r_uid r -> snd (step st (ORead k gv uid)) = OutErr ENotFound.
+Proof. exact read_stale_uid_notfound. Qed.
+
 (* ---- watches, for ALL schedules of commits, publications, opens, nexts, closes, cache evictions and
    restores.  A schedule is a sequence of epochs separated by restores; every restore leaves a clean
    state (C18_restore_clean: Restoration.Commit makes the publisher drop whatever is still queued, the
@@ -123,6 +199,47 @@ Theorem C18_delivered_committed : forall st0 ops n e,
   end.
 Proof. exact delivered_committed. Qed.
 
+(* ---- the stored row after an event (every read, uid-qualified or not, is a function of it: C18_read_spec).
+   The row the event carries WAS the stored row at a point a1 of the run before the Next; afterwards the id
+   holds a version >= it, or is absent and then an effective delete lies AFTER that point; after a delete
+   event of version v the id is absent or holds a version > v.  Both paths. *)
+Theorem C18_row_after_event : forall st0 a n e b,
+  clean st0 -> vb st0 -> NoDup (keys (s_res st0)) ->
+  forallb backend_op (a ++ ONext n :: b) = true -> (List.length (s_watches st0) <= n)%nat ->
+  let s1 := run st0 a in
+  snd (step s1 (ONext n)) = OutEvent e ->
+  let s2 := run (fst (step s1 (ONext n))) b in
+  match e with
+  | Upsert r =>
+      exists a1 a2, a = a1 ++ a2 /\ lk (r_id r) (run st0 a1) = Some r /\
+        match lk (r_id r) s2 with
+        | Some r' => r_version r <= r_version r'
+        | None => exists c1 d c2, a2 ++ ONext n :: b = c1 ++ d :: c2 /\ effective_delete (run (run st0 a1) c1) d (r_id r)
+        end
+  | Delete r => match lk (r_id r) s2 with Some r' => r_version r < r_version r' | None => True end
+  | EndOfSnapshot => True
+  end.
+Proof. exact row_after_event. Qed.
+
+Theorem C18_raft_row_after_event : forall B st0 a n e b,
+  clean st0 -> vbb B st0 -> NoDup (keys (s_res st0)) ->
+  raft_ok B (a ++ ONext n :: b) -> forallb no_restore (a ++ ONext n :: b) = true ->
+  (List.length (s_watches st0) <= n)%nat ->
+  let s1 := run st0 a in
+  snd (step s1 (ONext n)) = OutEvent e ->
+  let s2 := run (fst (step s1 (ONext n))) b in
+  match e with
+  | Upsert r =>
+      exists a1 a2, a = a1 ++ a2 /\ lk (r_id r) (run st0 a1) = Some r /\
+        match lk (r_id r) s2 with
+        | Some r' => r_version r <= r_version r'
+        | None => exists c1 d c2, a2 ++ ONext n :: b = c1 ++ d :: c2 /\ effective_delete (run (run st0 a1) c1) d (r_id r)
+        end
+  | Delete r => match lk (r_id r) s2 with Some r' => r_version r < r_version r' | None => True end
+  | EndOfSnapshot => True
+  end.
+Proof. exact raft_row_after_event. Qed.
+
 (* ---- a read made after receiving an event is not older than the event: after an upsert of version v
    the read returns a version >= v, or not-found and the id was deleted by a step of the run; after a
    delete event of version v it returns not-found or a version > v (a new lifetime). *)
@@ -160,6 +277,36 @@ Example C18_restore_then_commit_delivered :
   glog (after_restore pre_b) (OWatch xq :: post_b) = [(3, Upsert (xres [98] [117;50] 2 2))] /\
   last (outs (after_restore pre_b) (OWatch xq :: post_b)) OutOk = OutErr EWatchClosed.
 Proof. exact new_commit_delivered. Qed.
+Example C18_vbb_init : forall B, vbb B init.
+Proof. exact vbb_init. Qed.
+Example C18_raft_schedule_with_restore :
+  raft_ok 0 raft_demo /\ outs init raft_demo = [OutOk; OutOk; OutOk; OutOk] /\ raft_bound 0 raft_demo = 9.
+Proof. exact raft_demo_ok. Qed.
+Example C18_hypotheses_after_restore :
+  let st := fst (step (run init [OWrite (zres [97] [117;49] 0 1); OWrite (zres [98] [117;50] 0 2)])
+                      (ORestore [zres [97] [117;49] 1 1; zres [98] [117;50] 2 2])) in
+  clean st /\ vb st /\ NoDup (keys (s_res st)) /\ s_res st <> [].
+Proof. exact hyps_after_restore. Qed.
+Example C18_completeness_antecedent_met :
+  exists Lp La, glog init demo = Lp ++ La /\ List.length Lp = 2%nat /\ List.length La = 1%nat /\
+    s_queue (run init demo) = [] /\ snd (step (run init demo) (ONext 0)) = OutNoEvent /\
+    deliv 0 init demo = ideal xq (replay (s_res init) Lp) La.
+Proof. exact demo_complete. Qed.
+Example C18_lifetime_hypotheses_met :
+  let a := [OWrite (zres [97] [117;49] 0 1)] in
+  let b := [ODelete (zk [97]) [117;49] 1] in
+  let c := [OWrite (zres [97] [117;50] 0 2)] in
+  forallb backend_op (a ++ b ++ c) = true /\
+  lk (zk [97]) (run init a) = Some (zres [97] [117;49] 1 1) /\ lk (zk [97]) (run (run init a) b) = None /\
+  lk (zk [97]) (run (run (run init a) b) c) = Some (zres [97] [117;50] 2 2) /\
+  snd (step (run (run (run init a) b) c) (OWrite (zres [97] [117;50] 1 9))) = OutErr ECAS.
+Proof. exact lifetime_demo. Qed.
+Example C18_uid_stable_hypotheses_met :
+  let st := run init [OWrite (zres [97] [117;49] 0 1)] in
+  let ops := [OWrite (zres [97] [117;49] 1 2); ORead (zk [97]) [118;49] []] in
+  forallb no_restore ops = true /\ (forall p q, ops = p ++ q -> lk (zk [97]) (run st p) <> None) /\
+  exists r r', lk (zk [97]) st = Some r /\ lk (zk [97]) (run st ops) = Some r' /\ r_version r <> r_version r'.
+Proof. exact uid_stable_demo. Qed.
 Example C18_gap_watch_delivers :
   deliv 0 init demo = [Upsert (xres [97] [117;49] 2 2); EndOfSnapshot; Upsert (xres [97] [117;49] 3 3)].
 Proof. exact demo_deliv. Qed.
@@ -180,3 +327,20 @@ Print Assumptions C18_restore_clean.
 Print Assumptions C18_restore_drops_queued_batch.
 Print Assumptions C18_restore_then_commit_delivered.
 Print Assumptions C18_gap_watch_delivers.
+Print Assumptions C18_write_then_delete.
+Print Assumptions C18_raft_cas_exclusive.
+Print Assumptions C18_raft_new_lifetime.
+Print Assumptions C18_raft_write_then_delete.
+Print Assumptions C18_raft_bound_kept.
+Print Assumptions C18_vb_after_restore.
+Print Assumptions C18_keys_unique_after_restore.
+Print Assumptions C18_read_spec.
+Print Assumptions C18_read_stale_uid_notfound.
+Print Assumptions C18_row_after_event.
+Print Assumptions C18_raft_row_after_event.
+Print Assumptions C18_vbb_init.
+Print Assumptions C18_raft_schedule_with_restore.
+Print Assumptions C18_hypotheses_after_restore.
+Print Assumptions C18_completeness_antecedent_met.
+Print Assumptions C18_lifetime_hypotheses_met.
+Print Assumptions C18_uid_stable_hypotheses_met.
